@@ -84,3 +84,16 @@ Definition check_v1 (c : list (list ch) * option (list (N * N * option (list ch)
   | None, None => true
   | _, _ => false
   end.
+
+(* the pending comment: (comment lines as characters) per statement, for texts without continuations *)
+Definition cm_eqb (a b : comment) : bool :=
+  match a, b with
+  | None, None => true
+  | Some x, Some y => list_eqb (list_eqb ch_eqb) x y
+  | _, _ => false
+  end.
+
+Definition check_v1cm (c : list (list ch) * list (N * comment)) : bool :=
+  all2 (fun (m : nline * comment) (e : N * comment) => (n_number (fst m) =? fst e) && cm_eqb (snd m) (snd e))
+       (pre_cm (fst c)) (snd c).
+
